@@ -688,6 +688,19 @@ impl<'a, 't> Gen<'a, 't> {
         if depth >= self.max_depth {
             return self.atom(depth);
         }
+        // now and then a long flat chain of one operator (`a1 OR a2 OR ... an`, a checksum): written
+        // without a single parenthesis, but a tree as deep as the chain is long.  (Below 100 terms
+        // while KF-C04-05 - stack overflow near a thousand - is known.)
+        if depth == 0 && self.t.ratio(1, 60) && self.g.want("LONG_LIST") {
+            let n = *self.t.pick(&[12usize, 40, 65, 66, 67, 90, 99]);
+            let k = *self.t.pick(&[0usize, 1, 2, 9, 10, 11]);
+            let mut e = self.atom(self.max_depth);
+            for _ in 1..n {
+                let r = self.atom(self.max_depth);
+                e = self.binop(k, e, r);
+            }
+            return e;
+        }
         match self.t.below(10) {
             0 | 1 | 2 | 3 => self.atom(depth),
             4 | 5 | 6 | 7 => {
